@@ -19,6 +19,25 @@ add("C01", "history", "exploration", "runtime monitor: history + executable mode
     "Every undo step of thousands of random histories is compared with the snapshot observed before the undone operation; held on everything explored, not a proof.",
     HIST_NOTE)
 
+add("C02", "history", "exploration", "runtime monitor: history + executable model (cursor walks over the snapshot vector), redo expectations used only on verified lineages",
+    "Every redo step whose lineage was verified step by step is compared with the snapshot that followed the original operation; new operations after partial undo must empty the redo list.",
+    HIST_NOTE)
+add("C03", "history", "exploration", "runtime monitor: differential comparison of two real models (primary vs. replica applying the flushed diff queue) under four flush policies",
+    "After every flush the replica must accept the batch and its snapshot must equal the primary's; flush points are an explicit, replayable part of each history.",
+    HIST_NOTE)
+add("C04", "history", "fault_enumeration", "runtime monitor: invariant at a hook (state, undo/redo depths unchanged) around every call that returns Err, with invalid arguments generated from the current state",
+    "Every failing call (46 invalid-argument classes plus naturally failing valid-looking calls) is bracketed by snapshots and undo/redo depth readings.",
+    HIST_NOTE + " Undo/redo depths are read through the verif_hooks depth hook.")
+add("C26", "history", "exploration", "runtime monitor: round-trip relation (struct equality + snapshot equality after evaluate) at random points of op histories",
+    "to_bytes/from_bytes is executed at random points and at the end of every history; the reloaded workbook must be PartialEq-equal and evaluate to the same snapshot.",
+    HIST_NOTE)
+add("C27", "history", "exploration", "runtime monitor: structural invariant walker W over the live workbook at every quiescent point",
+    "W (names, ids, grid bounds, index existence, column/row descriptor order, spill ownership, name scopes) runs after every API call, successful or not, including undo/redo.",
+    HIST_NOTE)
+add("C28", "history", "exploration", "runtime monitor: selection invariant walker V at every quiescent point of histories enriched with navigation and sheet operations",
+    "V (selected sheet exists, cell inside range, both inside the grid) runs after every API call.",
+    HIST_NOTE)
+
 NOT_YET = {}
 
 def main():
